@@ -160,6 +160,10 @@ def check(ctx):
     c07.r_sum_leaves(ctx)
     c07.r_shared_callee(ctx)
     c07.r_layout_tables(ctx, 'R05.8', c07.LAYOUT_CONSTRUCT, 20)
+    c07.r_uint_tables(ctx, only={'get_type', 'from-primitive', 'structural-value', 'structural-type'})   # the value's reported type and its encoding
+    # the declared witness type is what the scope records: alias definitions, alias resolution and the witness table itself
+    from . import c04
+    c04.group_rule(ctx, 'R05.10', r'^(ast::Scope::(insert_witness|insert_alias|resolve)(::\{closure#\d+\})?|types::AliasedType::(resolve|resolve_builtin)(::\{closure#\d+\})?|types::BuiltinAlias::resolve|<ast::Program as ast::AbstractSyntaxTree>::analyze|ast::Program::analyze)$', 'recording of declared witness types (alias table, alias resolution, witness table): complete bodies', 4)
     if ctx.tier == 'thorough':
         from .. import witness
         witness.run(ctx, 'R05.W', ['W1', 'W3'])
